@@ -60,13 +60,19 @@ def main():
                     results.append((m["id"], "patch-failed", {}))
                     continue
             else:
-                p = os.path.join(wt, m["file"])
-                s = open(p).read()
-                if s.count(m["old"]) != m.get("count", 1):
-                    print(f"{m['id']}: old string occurs {s.count(m['old'])} times, expected {m.get('count', 1)}")
+                edits = m.get("edits") or [{"file": m["file"], "old": m["old"], "new": m["new"], "count": m.get("count", 1)}]
+                failed = False
+                for e in edits:
+                    p = os.path.join(wt, e["file"])
+                    s = open(p).read()
+                    if s.count(e["old"]) != e.get("count", 1):
+                        print(f"{m['id']}: old string occurs {s.count(e['old'])} times in {e['file']}, expected {e.get('count', 1)}")
+                        failed = True
+                        break
+                    open(p, "w").write(s.replace(e["old"], e["new"]))
+                if failed:
                     results.append((m["id"], "no-match", {}))
                     continue
-                open(p, "w").write(s.replace(m["old"], m["new"]))
             env = dict(os.environ, VIROCON_REPO=wt, VERIF_OUT="/tmp/vout_mut")
             row = {}
             for prop in m["props"]:
